@@ -55,12 +55,12 @@ impl CalendarTimeBucketer {
 
     fn bucket_hour<T: TimeZone>(&self, dt: DateTime<T>) -> DateTime<T> {
         let start = dt.date_naive().and_hms_opt(dt.hour(), 0, 0).unwrap();
-        resolve_local_start(start, &dt)
+        resolve_local_start(start, &dt, true)
     }
 
     fn bucket_day<T: TimeZone>(&self, dt: DateTime<T>) -> DateTime<T> {
         let start = dt.date_naive().and_hms_opt(0, 0, 0).unwrap();
-        resolve_local_start(start, &dt)
+        resolve_local_start(start, &dt, false)
     }
 
     fn bucket_week<T: TimeZone>(&self, dt: DateTime<T>) -> DateTime<T> {
@@ -70,7 +70,7 @@ impl CalendarTimeBucketer {
 
         let week_start = dt.date_naive() - chrono::Duration::days(days_since_week_start as i64);
         let start = week_start.and_hms_opt(0, 0, 0).unwrap();
-        resolve_local_start(start, &dt)
+        resolve_local_start(start, &dt, false)
     }
 
     fn bucket_month<T: TimeZone>(&self, dt: DateTime<T>) -> DateTime<T> {
@@ -80,7 +80,7 @@ impl CalendarTimeBucketer {
             .unwrap()
             .and_hms_opt(0, 0, 0)
             .unwrap();
-        resolve_local_start(start, &dt)
+        resolve_local_start(start, &dt, false)
     }
 
     fn bucket_year<T: TimeZone>(&self, dt: DateTime<T>) -> DateTime<T> {
@@ -92,22 +92,29 @@ impl CalendarTimeBucketer {
             .unwrap()
             .and_hms_opt(0, 0, 0)
             .unwrap();
-        resolve_local_start(start, &dt)
+        resolve_local_start(start, &dt, false)
     }
 }
 
 /// Fallback to naive implementation for performance-critical paths
 /// Resolves the local wall-clock start of a bucket to an instant. A wall-clock time can occur twice
 /// (DST fall-back) or not at all (DST spring-forward, e.g. a skipped local midnight); `unwrap()` on
-/// the `LocalResult` panicked for both. For a repeated time the bucket of `at` starts at the latest
-/// occurrence that is not after `at`; for a skipped time it starts at the first instant after the gap.
-fn resolve_local_start<T: TimeZone>(start: chrono::NaiveDateTime, at: &DateTime<T>) -> DateTime<T> {
+/// the `LocalResult` panicked for both. For a repeated time an hour bucket of `at` starts at the latest
+/// occurrence that is not after `at` and a larger bucket at the first occurrence; for a skipped time
+/// it starts at the first instant after the gap.
+fn resolve_local_start<T: TimeZone>(
+    start: chrono::NaiveDateTime,
+    at: &DateTime<T>,
+    hour_bucket: bool,
+) -> DateTime<T> {
     use chrono::LocalResult;
     let tz = at.timezone();
     match tz.from_local_datetime(&start) {
         LocalResult::Single(t) => t,
         LocalResult::Ambiguous(first, second) => {
-            if second <= *at {
+            // A repeated hour is two hour buckets; a calendar day (week, month, year) whose local
+            // midnight repeats is still one bucket and starts at the first occurrence.
+            if hour_bucket && second <= *at {
                 second
             } else {
                 first
